@@ -2124,6 +2124,30 @@ def m_sj_to_string(ex, a, m):
     except JsonSerErr as e: return e.r
     return ok(StrV(tree_text(ex, t)))
 
+@model_rx(r'^(?:core::|alloc::|std::)?slice::<impl \[.*\]>::(binary_search_by|binary_search_by_key|partition_point)$|^(Vec|VecDeque)::(binary_search_by|binary_search_by_key|partition_point)$')
+def m_binary_search_by(ex, a, m):
+    """core::slice::binary_search_by as implemented since Rust 1.82 (branch-free halving): on an unsorted slice the answer depends on the algorithm, so it is reproduced step by step"""
+    op = m.group(1) or m.group(3)
+    v = deref_all(a[0]); items = v.items
+    def cmp(i):
+        if op == 'binary_search_by': r = ex.call_value(a[1], [Ptr(items[i], 'ref')])
+        elif op == 'binary_search_by_key': return generic_cmp(ex, ex.call_value(a[2], [Ptr(items[i], 'ref')]), deref_all(a[1]))
+        else: return 'Less' if pybool(ex, ex.call_value(a[1], [Ptr(items[i], 'ref')])) else 'Greater'
+        r = deref_all(r) if isinstance(r, Ptr) else r
+        if r.lazy is not None: ex.materialize(r)
+        return r.variant
+    size = len(items)
+    if size == 0: return Int(0, 'usize') if op == 'partition_point' else err(Int(0, 'usize'))
+    base = 0
+    while size > 1:
+        half = size // 2; mid = base + half
+        if cmp(mid) != 'Greater': base = mid
+        size -= half
+    c = cmp(base)
+    if op == 'partition_point': return Int(base + (1 if c == 'Less' else 0), 'usize')
+    if c == 'Equal': return ok(Int(base, 'usize'))
+    return err(Int(base + (1 if c == 'Less' else 0), 'usize'))
+
 # ------------------------------------------------------------------------------------------ serde_json::Value inspection API
 @model_rx(r'^(?:serde_json::)?(?:value::)?Value::(is_null|is_boolean|is_number|is_string|is_array|is_object|is_i64|is_u64|is_f64|as_null|as_bool|as_str|as_array|as_object|as_array_mut|as_object_mut|as_i64|as_u64|as_f64|as_number)$')
 def m_value_api(ex, a, m):
